@@ -17,7 +17,7 @@ RULE = ("BIP32-valid 78-byte payloads (depth 0 => fp=index=0; depth 1..255 => an
         "leading zeros; points of both parities incl. x with leading zero bytes) x ALL 12 version constants (exhaustive) x 3 "
         "input forms x {Pub,Prv} node class; version table checked exhaustively in both directions; unknown versions = every "
         "constant +-1, single bit flips of every constant, random 32-bit values; distinct = distinct (monitor, case) digests"
-        " EXTENSIONS: + streams at an offset / holding several records, constructor-built public nodes from uncompressed / hybrid / raw keys, attribute edits on returned Version objects, list edits on returned version lists, version neighbours, enumerated scalar corners, a registry of foreign real-world version prefixes and every harvested 32-bit constant as unknown versions")
+        " EXTENSIONS: + streams at an offset / holding several records, constructor-built public nodes from uncompressed / hybrid / raw keys, attribute edits on returned Version objects, list edits on returned version lists, version neighbours, enumerated scalar corners, a registry of foreign real-world version prefixes and every harvested 32-bit constant as unknown versions, keys whose Base58 text spells another version's prefix (searched per version)")
 LEVEL_TEXT = ("Every extended-key string emitted by the real serialisers is decoded by an independent Base58Check decoder "
               "and compared byte-for-byte with the BIP32 layout of the node's fields; every parse (str/bytes/stream) is "
               "compared with the reference fields, parsed_version, equality and identical 111-char re-serialisation; public "
@@ -31,6 +31,19 @@ ALL_VERSIONS = sorted(rb32.SLIP132_INV)
 FOREIGN_VERSIONS = [0x0295b43f, 0x0295b005, 0x02aa7ed3, 0x02aa7a99, 0x024289ef, 0x024285b5, 0x02575483, 0x02575048,   # Ypub Yprv Zpub Zprv Upub Uprv Vpub Vprv
                     0x019da462, 0x019d9cfe, 0x01b26ef6, 0x01b26792, 0x0436f6e1, 0x0436ef7d,                             # Ltub Ltpv Mtub Mtpv ttub ttpv
                     0x02facafd, 0x02fac398, 0x0488b21e ^ 0x20000000, 0x043587cf ^ 0x20000000]                           # dgub dgpv, case-flipped first letter
+
+
+_B58 = "123456789ABCDEFGHJKLMNPQRSTUVWXYZabcdefghijkmnopqrstuvwxyz"
+
+
+def _search_text(payload):
+    import hashlib
+    d = payload + hashlib.sha256(hashlib.sha256(payload).digest()).digest()[:4]
+    n_, out = int.from_bytes(d, "big"), []
+    while n_:
+        n_, r_ = divmod(n_, 58)
+        out.append(_B58[r_])
+    return "1" * (len(d) - len(d.lstrip(b"\x00"))) + "".join(reversed(out))
 
 
 def gen_xkey(rnd, lzx):
@@ -402,6 +415,35 @@ def run(ctx):
         case = gen_xkey(rnd, lzx)
         case["version"] = ALL_VERSIONS[j % 12]
         judge_from_extended_key(ctx, case)
+    # keys whose Base58 TEXT holds the four-letter prefix of ANOTHER version somewhere in its body ('...upub...' inside a zpub;
+    # about one key in 10^3 holds one of the other eleven): searched for by varying the chain code, one per version per run -
+    # the version BYTES decide, not what the text happens to spell
+    import itertools
+    prefixes = {}
+    probe = rb32.XKey(7, None, b"\x00" * 32)
+    for ver in ALL_VERSIONS:
+        prefixes[ver] = rb58.encode_check(probe.payload(ver, rb32.SLIP132_INV[ver][0] == "prv"))[:4]
+    for vi, ver in enumerate(ALL_VERSIONS):
+        if not ctx.mine(vi):
+            continue
+        typ = rb32.SLIP132_INV[ver][0]
+        base = gen_xkey(rnd, lzx)
+        base.update({"depth": 3, "pindex": 5, "pfp": gen.rbytes(rnd, 4), "version": ver})
+        xk0 = bridge.xkey_from_case(base)          # (the public key is computed once)
+        others = [p_ for v_, p_ in prefixes.items() if v_ != ver]
+        found = 0
+        for ctr in itertools.count():
+            if ctr > 40000 or found >= 2:
+                break
+            c_ = (ctr.to_bytes(4, "big") + base["c"])[:32]
+            pay = rb32.XKey(xk0.k, xk0.K, c_, 3, 5, base["pfp"]).payload(ver, typ == "prv")
+            text = _search_text(pay)                 # (hashlib-based, for the search only; a hit is re-encoded by the reference)
+            if any(p_ in text[4:] for p_ in others) and any(p_ in rb58.encode_check(pay)[4:] for p_ in others):
+                found += 1
+                case = dict(base, c=c_, ctag="c:text-holds-foreign-prefix")
+                judge_from_extended_key(ctx, case)
+                judge_roundtrip(ctx, dict(case))
+        ctx.extra["keys_whose_text_holds_a_foreign_prefix"] = ctx.extra.get("keys_whose_text_holds_a_foreign_prefix", 0) + found
 
 
 def replay(ctx, monitor, case):
